@@ -113,7 +113,7 @@ func genC19(t *rapid.T) c19Case {
 			q.Pred = kit.GenExpr(t, l+"_p", "people", rapid.IntRange(0, 2).Draw(t, l+"_depth"),
 				&kit.GenOpts{NoSets: true, NoMaps: true, NoDotted: true, NoSubQuery: true})
 		}
-		q.Sort = genSort(t, l, c02SortSyms, 4)
+		q.Sort = genSort(t, l, c02SortSyms, 7)
 		q.Page = genPaging(t, l, len(d.People))
 		c.Queries = append(c.Queries, q)
 	}
@@ -193,7 +193,7 @@ func TestC19(t *testing.T) {
 	kit.Execute(t, kit.Spec[c19Case]{
 		ID:    "C19",
 		Level: "exploration",
-		Rule: "rapid draws 0-10 objects (id plus nullable string/int/float/bool/datetime fields), mirrors them into a bolt scan store with the same symbol names and draws 3-8 queries = optional predicate over non-set symbols (depth<=2, incl. = null / != null) x 0-4 sort keys x skip/limit boundary classes. " +
+		Rule: "rapid draws 0-10 objects (id plus nullable string/int/float/bool/datetime fields), mirrors them into a bolt scan store with the same symbol names and draws 3-8 queries = optional predicate over non-set symbols (depth<=2, incl. = null / != null) x 0-7 sort keys x skip/limit boundary classes. " +
 			"ObjectStore.QueryEntities must return the same ids in the same order and the same count as Store.QueryIds (both error or neither). The object store is iterated in reverse insertion order. " +
 			"Non-trivial case: a non-empty result under a non-default sort or paging, or a null test. Distinct by hash of the case JSON; sub_evaluations counts queries.",
 		Assumptions: []string{"literal differential: agreement with the documented semantics is C01/C02's job"},
